@@ -1,6 +1,7 @@
 import RV.C03.LongLemmas
 import RV.C03.NumLemmas
 import RV.C03.ListLemmas
+import RV.C03.LayoutLemmas
 /-
   C03 — property theorems: "serialise then parse gives back the same RDF graph".
 
@@ -229,5 +230,53 @@ theorem old_isValidList_diverges_on_cycle :
 
 /-- non-vacuity: a proper three-element list is accepted -/
 example : isValidList (sharedTail.take 7) [] (.bn (.orig 1)) = some true := by decide
+
+/-! ## Layer 2 — structure: nested blank nodes -/
+
+/-- `layout_roundtrip` for the family of serializers parameterised by the set `I` of blank nodes written inline
+    as `[ … ]` (list cells included: they may be nested like any other node): whenever `Pre` holds — each node of
+    `I` referenced exactly once, no cycle of inlined nodes, nesting bound above every rank — the document denotes
+    a graph isomorphic to the one written.  Any inlining policy meeting `Pre` is thereby correct. -/
+def Statement_layout_roundtrip : Prop :=
+  ∀ (g : Graph) (I : List Nat) (F : Nat) (rank : Nat → Nat), Pre g I F rank → Iso g (denote (layout g I F))
+
+/-- A collection `( o₁ … oₙ )` denotes exactly what `[ rdf:first o₁ ; rdf:rest [ … rdf:nil ] ]` denotes (same
+    fresh nodes, same triples): a writer may use it wherever the nested spelling has that shape, i.e. for the
+    chains `isValidList` accepts (`isValidList_proper`). -/
+def Statement_coll_is_sugar : Prop :=
+  ∀ (items : List Obj) (π : List Nat), denObj π (.coll items) = denObj π (desugar items)
+
+theorem layout_roundtrip : Statement_layout_roundtrip := fun _ _ _ _ hp => layout_roundtrip' hp
+
+theorem coll_is_sugar : Statement_coll_is_sugar := coll_is_sugar'
+
+/-- non-vacuity: `<10> <11> [ <12> "5" ; <13> [ <12> "6" ] ]` — two nested inlined nodes satisfy `Pre` -/
+def nested : Graph :=
+  [(.iri 10, .iri 11, bnO 1), (bnO 1, .iri 12, .lit 5), (bnO 1, .iri 13, bnO 2), (bnO 2, .iri 12, .lit 6)]
+
+example : Pre nested [1, 2] 3 id := by
+  refine ⟨by decide, by decide, ?_, ?_, ?_, by decide⟩
+  · intro t ht
+    simp only [nested, List.mem_cons, List.not_mem_nil, or_false] at ht
+    rcases ht with rfl | rfl | rfl | rfl <;> exact ⟨_, rfl⟩
+  · intro n hn
+    simp only [List.mem_cons, List.not_mem_nil, or_false] at hn
+    rcases hn with rfl | rfl
+    · refine ⟨.iri 10, .iri 11, by decide, ?_⟩
+      intro s' p' h
+      simp [nested, bnO] at h
+      exact h
+    · refine ⟨bnO 1, .iri 13, by decide, ?_⟩
+      intro s' p' h
+      simp [nested, bnO] at h
+      exact h
+  · intro n hn m hm p h
+    simp only [List.mem_cons, List.not_mem_nil, or_false] at hn hm
+    rcases hn with rfl | rfl <;> rcases hm with rfl | rfl <;> simp [nested, bnO] at h <;> simp
+
+example : denote (layout nested [1, 2] 3) =
+    [(.iri 10, .iri 11, .bn (.fresh [0, 0])), (.bn (.fresh [0, 0]), .iri 12, .lit 5),
+     (.bn (.fresh [0, 0]), .iri 13, .bn (.fresh [1, 0, 0])), (.bn (.fresh [1, 0, 0]), .iri 12, .lit 6)] := by
+  decide
 
 end RV.C03
